@@ -81,19 +81,6 @@ def config(prop, seed, tier):
     elif prop == "C05":
         cfg["initial"] = [r.choice(["H", "H", "DH", "SC"]) for _ in range(r.choice([1, 2]))]
         with_faults(cfg, r, 0.4)
-    elif prop == "C04":
-        cfg["initial"] = [r.choice(["H", "H", "DH", "SC"]) for _ in range(r.choice([1, 2]))]
-        for k in ("H", "DH", "SC"):
-            t = cfg["ops"][k]
-            for op in list(t):
-                if op.startswith(("add_", "alias_add", "dup_edge", "update")):
-                    t[op] *= 2.5
-            for op, w in {"H": H_OPS, "DH": DH_OPS, "SC": SC_OPS}[k].items():
-                if op in ("add_edge", "add_edges_from", "add_node_to_edge", "add_simplex",
-                          "add_simplices_from", "remove_edge", "remove_simplex_id",
-                          "merge_duplicate_edges", "convert_labels_to_integers"):
-                    t.setdefault(op, w)
-        with_faults(cfg, r, 0.2)
     else:
         from . import registry
 
